@@ -237,8 +237,7 @@ check('C16',
       'baseband classes. The model is evaluated (vm_compute) on every attempted construction and compared with the constructor; WF itself '
       'is evaluated on the observed attributes of every signal the run sees, including those returned by library operations; copies '
       '(like, pickle, cloudpickle, dask helpers) are compared attribute by attribute.',
-      'Trusted: Coq kernel; translator T2; numpy can_cast(safe) as transcribed (validated); data arguments are array objects. Known finding '
-      'D23: rechunk() with default chunks raises on a zero-length signal (dask auto-chunking).',
+      'Trusted: Coq kernel; translator T2; numpy can_cast(safe) as transcribed (validated); data arguments are array objects.',
       'machine-checked proof in Coq over tables regenerated from source (T2) + correspondence run (vm_compute) + contract monitor',
       'DESIGN.md 5 C16')
 
@@ -256,6 +255,21 @@ check('C20',
       'matrix for fft/ifft); dask fft_wrap accepts a subset of keyword forms (rejections are counted, not failures).',
       'machine-checked proof in Coq (generated name table; Q band algebra; C segment inversion) + correspondence run (vm_compute) + reference-transform monitor',
       'DESIGN.md 5 C20')
+
+check('C11',
+      'Coq theorems (Props/C11.v, axiom-free) about Model/Reader.v: read(offset, n) raises exactly for offset < 0, n < 0 or offset + n > '
+      'len and otherwise returns n samples starting at time_at(offset), taken from inside the file (real baseband: the 2n real samples '
+      'from 2*offset); offset_at(time_at(k)) = k for every 0 <= k <= len through absolute and relative times, and offsets outside [0, len] '
+      'are refused; every read opens its own handle on the immutable file (open, seek, read, close): for EVERY interleaving of the atomic '
+      'steps of any number of concurrent reads, each completed read returns exactly its sequential result, the file samples '
+      '[pos, pos+cnt) - no dependence on history or on the other reads; adjacent reads concatenate to the spanning read. PARTIAL: agreement '
+      'with what the file encodes (baseband decoding, sideband conjugation, channel flip, axis order, Hilbert conversion of real-sampled '
+      'files), real threads, Dask reads and header-derived frequency metadata are decided by the correspondence run against an independent '
+      'decoding path (baseband.open directly + an independent analytic conversion) on all shipped formats, incl. 16-thread concurrent reads.',
+      'Trusted: Coq kernel; baseband decoding; CPython threads / OS observed only. CPython\'s warnings module is not thread-safe and '
+      'baseband installs a temporary error filter when opening a file: a Warning raised inside a worker thread is retried and counted.',
+      'machine-checked proof in Coq (Z/Q/list model incl. all interleavings of per-call handles) + correspondence run (vm_compute) + independent-decoder monitor',
+      'DESIGN.md 5 C11')
 
 ALL = [f'C{i:02d}' for i in range(1, 21)]
 
